@@ -15,7 +15,7 @@ def mk (p : Params) (o t : Bool) (val : AttrVal) : Attr := ⟨exaFlags o t (encV
 def semAsPath (p : SessParams) (segs : List Seg) : List Attr :=
   if p.asn4 then [mk (paramsOf p) false true (.asPath segs)]
   else mk (paramsOf p) false true (.asPath (transSegs segs)) ::
-    (if hasBig segs then [mk (paramsOf p) true true (.as4Path segs)] else [])
+    (if hasBig (plainSegs segs) then [mk (paramsOf p) true true (.as4Path (plainSegs segs))] else [])
 
 def semAggregator (p : SessParams) (asn ip : Nat) : List Attr :=
   if p.asn4 then [mk (paramsOf p) true true (.aggregator asn ip)]
@@ -243,13 +243,14 @@ theorem packAsPath_eq (p : SessParams) (segs : List Seg) (h : SegLens segs) :
     have e1 : hdr 2 (encSegs false (transSegs segs)) =
         encAttr (paramsOf p) (mk (paramsOf p) false true (.asPath (transSegs segs))) :=
       hdr2 (paramsOf p) _ (.asPath (transSegs segs)) (by simp [encVal, paramsOf, h4']) rfl
-    by_cases hb : hasBig segs = true
+    have hpl : SegLens (plainSegs segs) := fun s hs => h s (List.mem_filter.mp hs).1
+    by_cases hb : hasBig (plainSegs segs) = true
     · simp only [hb, if_true, encAttrs_pair]
-      rw [packSegs_eq true segs h, e1]
+      rw [packSegs_eq true (plainSegs segs) hpl, e1]
       congr 1
-      exact hdr17 (paramsOf p) _ (.as4Path segs) (by simp [encVal]) rfl
-        (encSegs_ne_nil true segs (hasBig_ne_nil segs hb))
-    · have hb' : hasBig segs = false := by simpa using hb
+      exact hdr17 (paramsOf p) _ (.as4Path (plainSegs segs)) (by simp [encVal]) rfl
+        (encSegs_ne_nil true (plainSegs segs) (hasBig_ne_nil (plainSegs segs) hb))
+    · have hb' : hasBig (plainSegs segs) = false := by simpa using hb
       simp only [hb', Bool.false_eq_true, if_false, encAttrs_single, List.append_nil]
       exact e1
 
